@@ -55,7 +55,7 @@ static std::vector<Fmt> formats() {
   f.push_back(Fmt{"A64_ADRP", OffsetType::kAArch64_ADRP, 4, 21, 5, 12, 0x60FFFFE0u, 0, false});
   // formats defined by OffsetType for the T32 / A32 backends (parameters as documented in fixup.h / the Arm ARM)
   f.push_back(Fmt{"T32_ADR", OffsetType::kThumb32_ADR, 4, 12, 0, 0, 0x04A070FFu, 2, false});
-  f.push_back(Fmt{"T32_BLX", OffsetType::kThumb32_BLX, 4, 23, 0, 2, 0x07FF2FFEu, 0, false});
+  f.push_back(Fmt{"T32_BLX", OffsetType::kThumb32_BLX, 4, 23, 0, 2, 0x07FF2FFFu, 0, false});  // H (bit 0) is a fixed 0 bit of BLX: the patcher ORs into it, so it belongs to the zero-before mask
   f.push_back(Fmt{"T32_B", OffsetType::kThumb32_B, 4, 24, 0, 1, 0x07FF2FFFu, 0, false});
   f.push_back(Fmt{"T32_BCond", OffsetType::kThumb32_BCond, 4, 20, 0, 1, 0x043F2FFFu, 0, false});
   f.push_back(Fmt{"A32_ADR", OffsetType::kAArch32_ADR, 4, 32, 0, 0, 0x00C00FFFu, 2, false});
